@@ -145,7 +145,7 @@ func c15sNew(t *testing.T) *c15sNode {
 	if err := s.Bootstrap(NewServer(s.ID(), s.Addr(), true)); err != nil {
 		panic(fmt.Sprintf("C15 store harness: bootstrap: %v", err))
 	}
-	if _, err := s.WaitForLeader(10 * time.Second); err != nil {
+	if _, err := s.WaitForLeader(120 * time.Second); err != nil {
 		panic(fmt.Sprintf("C15 store harness: wait for leader: %v", err))
 	}
 	er := executeRequestFromStrings([]string{
